@@ -156,6 +156,7 @@ func (c *c09) Run(cs core.Case) core.Result {
 	defer gf2p16.VerifSetSSSE3(hadSSSE3)
 	mul, mulAdd := c09Kernels(p.Path)
 	rng := rand.New(rand.NewSource(p.Seed))
+	subNo := 0
 	var row [65536]uint16
 	ops := []struct {
 		name string
@@ -185,6 +186,10 @@ func (c *c09) Run(cs core.Case) core.Result {
 			for _, op := range ops {
 				rng.Read(outOld)
 				copy(out, outOld)
+				subNo++
+				if !core.Sub(subNo) {
+					continue
+				}
 				core.Note("C09 values path=%s op=%s c=%d len=%d", p.Path, op.name, cst, len(in))
 				if pi := core.Protect(func() { op.k(gf2p16.T(cst), in, out) }); pi != nil {
 					r.Violate("kernel-panic|"+p.Path, "path=%s op=%s c=%d: panic %s", p.Path, op.name, cst, pi.Msg)
@@ -247,6 +252,10 @@ func (c *c09) Run(cs core.Case) core.Result {
 							rng.Read(out)
 						}
 						outOld := append([]byte(nil), out...)
+						subNo++
+						if !core.Sub(subNo) {
+							continue
+						}
 						core.Note("C09 lengths path=%s op=%s c=%d len=%d placement=%s (a fault here is an out-of-bounds access)", p.Path, op.name, cst, l, placement)
 						if pi := core.Protect(func() { op.k(gf2p16.T(cst), in, out) }); pi != nil {
 							r.Violate("kernel-panic|"+p.Path, "path=%s op=%s c=%d len=%d %s: panic %s", p.Path, op.name, cst, l, placement, pi.Msg)
@@ -313,6 +322,10 @@ func (c *c09) Run(cs core.Case) core.Result {
 					rng.Read(out)
 					inCopy := append([]byte(nil), in...)
 					outOld := append([]byte(nil), out...)
+					subNo++
+					if !core.Sub(subNo) {
+						continue
+					}
 					core.Note("C09 align path=%s op=%s c=%d len=%d src+%d dst+%d", p.Path, op.name, cst, l, pr.s, pr.d)
 					if pi := core.Protect(func() { op.k(gf2p16.T(cst), in, out) }); pi != nil {
 						r.Violate("kernel-panic|"+p.Path, "path=%s op=%s c=%d len=%d align=(%d,%d): panic %s", p.Path, op.name, cst, l, pr.s, pr.d, pi.Msg)
